@@ -16,7 +16,8 @@ EST_METHODS = _c02.EST_METHODS
 data = _c02.data
 
 # the opaque in-repo steps (assumed contracts) are shared with C02
-for _cls in (_c02.ConstraintKMeansAlgo, _c02.FitReglin, _c02.CloneFitted, _c02.AssertEqual, _c02.SingleRunOpaque, _c02.ToleranceOpaque):
+for _cls in (_c02.ConstraintKMeansAlgo, _c02.FitReglin, _c02.CloneFitted, _c02.AssertEqual, _c02.SingleRunOpaque, _c02.ToleranceOpaque,
+             _c02.NodeFitOpaque, _c02.MappingTrainOpaque, _c02.FitBucketOpaque):
     contract(_cls.key, "C03", assumed=True)(type(_cls.__name__, (_cls,), {}))
 
 
@@ -44,6 +45,8 @@ refit(_c02.CakFit, ["labels_", "clus_", "estimator_"])
 refit(_c02.TransferFit, ["estimator_"])
 refit(_c02.TtrFit, ["transformer_", "regressor_"])
 refit(_c02.PiecewiseTreeFit, ["tree_"])
+refit(_c02.DtlrFit, ["classes_", "tree_", "n_nodes_"])
+refit(_c02.PiecewiseFit, ["binner_", "mapping_", "leaves_", "estimators_", "mean_estimator_", "dim_"])
 
 
 F = MM + "sklearn_transform_inv_fct.py"
